@@ -25,7 +25,7 @@ theorem lookup_all {tbl : List (Char × Str)} {p : Char × Str → Bool} (h : tb
 
 theorem lex_norm_cons (c : Char) (r : Str) :
     lex .norm (c :: r) = onNorm c r (lex .norm r) (lex .esc r) := by
-  simp only [lex]
+  simp only [lex, onNorm]
 
 theorem lex_esc_cons_simple (e v : Char) (r : Str) (h : simpleEsc e = some v) :
     lex .esc (e :: r) = pushC v (lex .norm r) := by
